@@ -6,6 +6,10 @@ deltas.rs, hint/instance.rs} by translate/c12_wbr.py on every run; the obligatio
 by the kernel on that data.
 -/
 import FontVerif.Lemmas.ScratchFlow
+import FontVerif.Lemmas.HintState
+import FontVerif.Lemmas.ScratchModels
+import FontVerif.Lemmas.LazySlot
+import FontVerif.Props.C12
 import FontVerif.Gen.C12Wbr
 set_option linter.unusedVariables false
 namespace FontVerif.C12
@@ -207,5 +211,132 @@ Props/C12Wbr.lean) -/
 theorem modelled_events_are_proved :
     modelledThms.all (fun t => ["cow_buffer_independent", "read_points_writes_all", "value_stack_buffer_independent"].contains t) = true := by
   decide
+
+/-! ## 7. instance history: every field on the reconfigure / draw path -/
+
+open FontVerif.HintState in
+/-- the state table re-extracted from the source is the reviewed one, and it is complete: every field
+of `HintingInstance` and `glyf::HintInstance` is overwritten by `reconfigure` (or only resized *and*
+wiped by `Engine::reset(Program::Font)`: the instruction definitions), every field of the per-draw
+objects (`Engine`, `GraphicsState`, `RetainedGraphicsState`, `ValueStack`, `ProgramState`, `LoopBudget`,
+`CowSlice`, `Zone`) is named in its constructor or defaulted, `is_pedantic` and the backward
+compatibility flag are assigned for every program run -/
+theorem state_table_matches_model : persistSrc = persistModel ∧ persistComplete persistSrc = true := by
+  decide +kernel
+
+open FontVerif.HintState in
+/-- dropping the reset of the instruction definitions (seeded change C12-5) makes the table incomplete -/
+example : persistComplete (persistModel.filter (fun r => r.2.1 != "definitions.instructions")) = false := by
+  decide +kernel
+
+open FontVerif.HintState in
+/-- **Reconfiguring the public instance is history independent**: for every interpreter, whatever
+the instance was configured for before (`o`, `o'`: any size, location, target, any state of a previous
+`glyf` instance or none), `HintingInstance::reconfigure` produces the same instance and the same
+error.  Draws take `&self` (no interior mutability in outline/glyf: `interior_mutability_reviewed`), so
+the instance a draw sees is this function of (font, size, location, mode). -/
+theorem outer_reconfigure_history_independent {G E : Type} (run : EngineState G → Except E (EngineState G))
+    (fresh : Inst G) (o o' : Outer G) (size : Int) (coords : List Int) (target : Nat) (c : Cfg G) :
+    outerReconfigure run fresh o size coords target c = outerReconfigure run fresh o' size coords target c := by
+  have h : ∀ (a b : Inst G), reconfigure run a c = reconfigure run b c :=
+    fun a b => reconfigure_history_independent run a b c
+  unfold outerReconfigure
+  rw [h (o.inst fresh) (o'.inst fresh)]
+
+open FontVerif.HintState in
+example : (outerReconfigure exRun ⟨[], [], [], [], 0, [], [], [], 0, 0⟩ ⟨7, [1], 2, some exDirty⟩ 16 [] 0 exCfg).1.kind.map
+      (fun i => (i.instructions, i.storage))
+    = some ([some (1, 2, 165, 0), none], [0, 640, 0]) := by rfl
+
+/-! ## 8. threads: the only shared mutable state is the lazy metrics slot -/
+
+/-- every interior-mutability site under skrifa/src/outline/** and skrifa/src/color/** is reviewed
+(translate/c12_sites_review.json; a new or changed site breaks the translator), and the only ones that
+are shared mutable state are the `RwLock` accesses of `UnscaledStyleMetricsSet::get` -/
+theorem interior_mutability_reviewed :
+    interiorSitesSrc.all (fun s => ["import_or_type", "construct_all_none", "compute_once_publish_complete",
+      "plain_mut_method"].contains s.2) = true ∧
+    (interiorSitesSrc.filter (fun s => s.2 == "compute_once_publish_complete")).map (·.1) =
+      ["skrifa/src/outline/autohint/metrics/mod.rs::get::.read().unwrap()",
+       "skrifa/src/outline/autohint/metrics/mod.rs::get::.write().unwrap()"] ∧
+    (interiorSitesSrc.filter (fun s => "skrifa/src/outline/glyf/".toList.isPrefixOf s.1.toList)) = [] := by
+  decide +kernel
+
+open FontVerif.LazySlot in
+/-- the lock protocol extracted from `get` is the modelled one -/
+theorem lazy_get_is_model : lazyGetSrc.mapM Act.ofString = some lazyGetModel := by decide
+
+
+open FontVerif.LazySlot in
+/-- **Readers see `None` or the final value.** For any number of threads calling `get` on one shared
+slot and every interleaving of their lock-protected actions: the slot only ever holds `None` or the
+final value, every thread that looked at the slot saw one of these two, and every call that has
+returned returned the final value — no placeholder is ever visible. -/
+theorem lazy_slot_readers_see_none_or_final (n final other : Nat) (sched : List Nat) :
+    let s := run lazyGetModel final other (Sys.start n) sched
+    (s.slot = none ∨ s.slot = some final) ∧
+    ∀ t ∈ s.threads, (t.seen = none ∨ t.seen = some none ∨ t.seen = some (some final)) ∧
+      (t.ret = none ∨ t.ret = some (some final)) := by
+  have h0 : LazySlot.Good final (Sys.start n) := by
+    refine ⟨Or.inl rfl, ?_⟩
+    intro t ht
+    simp only [Sys.start, List.mem_replicate] at ht
+    rw [ht.2]
+    exact ⟨Or.inl rfl, by simp [Thread.start], Or.inl rfl⟩
+  have := LazySlot.run_good final other sched _ h0
+  exact ⟨this.1, fun t ht => ⟨(this.2 t ht).1, (this.2 t ht).2.2⟩⟩
+
+open FontVerif.LazySlot in
+-- non-vacuity: two threads race, both compute, both return the final value 42, the slot holds it
+example : (run lazyGetModel 42 0 (Sys.start 2) [0, 0, 1, 1, 0, 1, 0, 1, 0, 0, 1, 0, 0, 1, 1, 1, 1]).threads.map (·.ret)
+    = [some (some 42), some (some 42)] := by decide
+open FontVerif.LazySlot in
+example : (run lazyGetModel 42 0 (Sys.start 2) [0, 0, 1, 1, 0, 1, 0, 1, 0, 0, 1, 0, 0, 1, 1, 1, 1]).slot = some 42 := by decide
+open FontVerif.LazySlot in
+/-- a protocol that claims the slot with a placeholder before computing (seeded change C12-6) lets a
+second thread return the placeholder (here 0 instead of 42) -/
+example : (run [.readLock, .readSlot, .returnIfSome, .unlock, .writeLock, .storeOther, .unlock, .compute, .writeLock,
+      .storeFinal, .returnComputed] 42 0 (Sys.start 2) [0, 0, 0, 0, 0, 0, 0, 1, 1, 1]).threads.map (·.ret)
+    = [none, some (some 0)] := by decide
+
+/-! ## 9. the data-dependent accesses (`modelled` events) -/
+
+open FontVerif.ScratchModels in
+/-- **The interpreter's value stack does not depend on the scratch buffer.** `ValueStack::new` sets
+`len = 0` on whatever the backing slice (carved from the caller's buffer, never cleared) contains; every
+operation reads below `len` only, and everything below `len` has been pushed since.  So for every
+sequence of operations (incl. the non-pedantic "pop of an empty stack yields 0", `CINDEX` / `MINDEX`
+with arbitrary — also negative or too large — indices, overflow) the outcomes on two buffers of the
+same length with arbitrary contents are identical. -/
+theorem value_stack_buffer_independent (g g' : List Int) (h : g.length = g'.length) (pedantic : Bool)
+    (ops : List VOp) : (VS.new g pedantic).run ops = (VS.new g' pedantic).run ops :=
+  run_sim ops _ _ ⟨h, rfl, rfl, Nat.zero_le _, fun j hj => absurd hj (Nat.not_lt_zero _)⟩
+
+open FontVerif.ScratchModels in
+example : ((VS.new [7, 7, 7, 7] false).run [.pop, .push 5, .push 1, .copyIndex, .values, .push 9, .push 3, .moveIndex,
+      .values, .roll, .values, .push 1, .push 2, .push 3]).map renderObs
+    = ["ok 0", "ok", "ok", "ok", "ok 5 5", "ok", "ok", "ok", "ok 5 9 5", "ok", "ok 9 5 5",
+       "ok", "ValueStackOverflow", "ValueStackOverflow"] := by decide
+open FontVerif.ScratchModels in
+example : ((VS.new [7, 7, 7, 7] true).run [.pop, .dup, .push 4, .push 6, .push 2, .moveIndex, .values]).map renderObs
+    = ["ValueStackUnderflow", "ValueStackUnderflow", "ok", "ok", "ok", "ok", "ok 6 4"] := by decide
+
+open FontVerif.ScratchModels in
+/-- **`read_points_fast` writes every point and flag before reading any**: on two pairs of caller
+buffers (unscaled points, flags — scratch slices with arbitrary contents) the outcome (error or the
+complete buffers afterwards) is the same: the flag loop only ends successfully when `i == n_points`,
+and the coordinate passes run after it. -/
+theorem read_points_writes_all (gd : List Nat) (n : Nat) (p1 p2 : List (Int × Int)) (f1 f2 : List Nat)
+    (hp1 : p1.length = n) (hp2 : p2.length = n) (hf1 : f1.length = n) (hf2 : f2.length = n) :
+    readPointsBuf gd n p1 f1 = readPointsBuf gd n p2 f2 :=
+  readPointsBuf_indep gd n p1 p2 f1 f2 hp1 hp2 hf1 hf2
+
+open FontVerif.ScratchModels in
+-- three points: flags 0x33 (x short +, y same), 0x09 repeat ×1 (on curve, i16 deltas); garbage buffers
+example : readPointsBuf [0x33, 0x09, 0x01, 10, 0, 5, 0xFF, 0xFE, 0, 7, 0, 1] 3 [(9, 9), (8, 8), (7, 7)] [255, 255, 255]
+    = some ([(10, 0), (15, 7), (13, 8)], [1, 1, 1]) := by decide
+open FontVerif.ScratchModels in
+-- flags that end before every point has one: an error, not stale flags
+example : readPointsBuf [0x33] 3 [(9, 9), (8, 8), (7, 7)] [255, 255, 255] = none := by decide
 
 end FontVerif.C12
